@@ -23,7 +23,8 @@ Definition pid := nat.
 Inductive gd := GOwn | GId (c : cid).     (* the context a goroutine was started with / a named one *)
 
 Inductive instr :=
-| ISrc (src : nat) (g : gd) (k_item k_eof k_err : nat)   (* input.ReadOne(ctx): next input item *)
+| ISrc (src : nat) (g : gd) (k_item k_eof k_err : nat)   (* input.ReadOne(ctx): ONE atomic step hands the next input item to the caller
+                                                            (never Next ; Value through the iterator's shared value field: Proofs/Pipelines_shared.v) *)
 | IRecv (ch : chid) (g : gd) (k_item k_eof k_err : nat)  (* ChanReceive.Read(ctx) *)
 | ISend (ch : chid) (g : gd) (k_ok k_eof k_err : nat)    (* ChanSend.Write(ctx, hand) *)
 | IDeliver (k : nat)                                     (* the user's function / the consumer gets the item *)
